@@ -545,8 +545,10 @@ async fn decode_and_verify_responses(
         // Make sure that starting header is the requested one and that
         // there are no gaps in the chain
         (Some(Data::Origin(start)), amount) if *start > 0 && amount > 0 => {
-            for (header, height) in headers.iter().zip(*start..*start + amount as u64) {
-                if header.height() != height {
+            for (header, offset) in headers.iter().zip(0..amount as u64) {
+                // `start` can be as large as `u64::MAX`; a height that
+                // overflows can not be matched by any header.
+                if start.checked_add(offset) != Some(header.height()) {
                     return Err(HeaderExError::InvalidResponse);
                 }
             }
